@@ -206,38 +206,43 @@ def playback(h, prop):
                 tests.append((m.group(1), p))
     if not tests:
         return None, None, "no concrete playback test was generated"
+    results = run_playback(scratch, [t[0] for t in tests])
+    failing = [n for n, (rep, _) in results.items() if rep]
+    keep = failing or [t[0] for t in tests]
     gen = []
     for name, p in tests:
+        if name not in keep:
+            continue
         txt = open(p).read()
         i = txt.find("fn " + name)
         j = txt.rfind("#[test]", 0, i)
         k = txt.find("\n}\n", i)
         gen.append(txt[j:k + 3])
+    notes = "; ".join(n for _, n in results.values())
     with open(rpath, "w") as f:
         f.write("// Concrete playback of Kani harness %s (crate /verif/kani/%s) for property %s.\n" % (h.name, h.crate, prop))
-        f.write("// Generated by the solver's counterexample; replay: ./check %s --replay %s\n" % (prop, rpath))
-        f.write("// The test runs the harness body natively against /repo (no stubs applied).\n\n")
+        f.write("// Values are the solver's counterexample; the test runs the harness body natively against /repo\n")
+        f.write("// (no stubs applied).  Replay: cd /verif && ./check %s --replay %s\n" % (prop, rpath))
+        f.write("// Native result when generated: %s\n\n" % notes.replace("\n", " "))
         f.write("\n".join(gen))
-    reproduced, note = run_playback(scratch, [t[0] for t in tests])
     shutil.rmtree(scratch, ignore_errors=True)
-    return reproduced, rpath, note
+    return bool(failing), rpath, notes
 
 
 def run_playback(scratch, names):
+    """Run each generated concrete-playback test natively (dev profile). name -> (reproduced, note)"""
     env = base_env()
     env["CARGO_TARGET_DIR"] = os.path.join(BUILD, "playback_target")
-    notes = []
-    repro = False
+    res = {}
     for name in names:
-        rc, out = sh(["cargo", "kani", "playback", "-Z", "concrete-playback", "--", name, "--exact" if False else name],
-                     cwd=scratch, env=env, timeout=900,
+        rc, out = sh(["cargo", "kani", "playback", "-Z", "concrete-playback", "--", name],
+                     cwd=scratch, env=env, timeout=1200,
                      log=os.path.join(LOGS, "playback_run_%s.log" % name))
-        if re.search(r"test result: FAILED|panicked at", out):
-            repro = True
-            m = re.search(r"panicked at (.*?):\n(.*)", out)
-            notes.append("native dev run panics: %s" % (m.group(0)[:300] if m else "yes"))
-        elif "test result: ok" in out:
-            notes.append("native dev run of %s passes (not reproduced)" % name)
+        if re.search(r"test result: FAILED", out):
+            m = re.search(r"panicked at ([^\n]*):\n([^\n]*)", out)
+            res[name] = (True, "native dev run panics at %s: %s" % (m.group(1), m.group(2)[:200]) if m else "native dev run fails")
+        elif re.search(r"test result: ok. 1 passed", out):
+            res[name] = (False, "native dev run of %s passes" % name)
         else:
-            notes.append("native run inconclusive rc=%s: %s" % (rc, out[-300:]))
-    return repro, "; ".join(notes)
+            res[name] = (False, "native run of %s inconclusive rc=%s: %s" % (name, rc, out[-200:].replace("\n", " ")))
+    return res
